@@ -133,6 +133,29 @@ impl BufferedBody {
     }
 }
 
+#[cfg(feature = "verif_hooks")]
+#[doc(hidden)]
+impl BufferedBody {
+    /// Verification hook: drive the private, body-generic `_extract_with_limit`
+    /// with an arbitrary `Body` implementation (i.e. an arbitrary sequence of frames).
+    pub async fn verif_extract_with_limit<B>(
+        request_head: &RequestHead,
+        body: B,
+        max_size: ByteUnit,
+    ) -> Result<Self, ExtractBufferedBodyError>
+    where
+        B: hyper::body::Body,
+        B::Error: Into<Box<dyn std::error::Error + Send + Sync>>,
+    {
+        Self::_extract_with_limit(request_head, body, max_size).await
+    }
+
+    /// Verification hook: build a `BufferedBody` (a `#[non_exhaustive]` struct) from bytes.
+    pub fn verif_from_bytes(bytes: Bytes) -> Self {
+        Self { bytes }
+    }
+}
+
 impl From<BufferedBody> for Bytes {
     fn from(buffered_body: BufferedBody) -> Self {
         buffered_body.bytes
